@@ -19,6 +19,12 @@ D_Alpha == {<<"<">>, <<"%">>, <<">">>, <<"#">>, <<"-">>, <<" ">>, <<"x">>}
 \* configuration E: default action delimiters, comment delimiters of unequal length
 E_LD == <<"{", "{">>  E_RD == <<"}", "}">>  E_LC == <<"<", "!", "-", "-">>  E_RC == <<"-", "-", ">">>
 E_Alpha == {<<"{">>, <<"}">>, <<"<">>, <<"!">>, <<"-">>, <<">">>, <<" ">>, <<"x">>}
+\* configuration F: only the LEFT comment marker is configured (WithCommentDelims("<#", "")): the right one stays "*}"
+F_LD == <<"{", "{">>  F_RD == <<"}", "}">>  F_LC == <<"<", "#">>  F_RC == <<"*", "}">>
+F_Alpha == {<<"{">>, <<"}">>, <<"<">>, <<"#">>, <<"*">>, <<"-">>, <<" ">>, <<"x">>}
+F_Tok == {F_LD, F_RD, F_LC, F_RC, <<"{", "*">>, <<"-", " ">>, <<" ", "-">>, <<" ", " ", "-">>, <<" ">>, <<"\n">>, <<"x">>, <<"x", "x">>, <<"a">>,
+           <<F_LD[1]>>, <<F_RD[1]>>, <<F_LC[2]>>, <<"-">>, <<"*">>}
+F_HdrTok == {F_LD \o <<"x">> \o F_RD, F_LD \o <<"-", " ", "x", " ", "-">> \o F_RD, <<" ">>, <<"\n">>, <<"a">>, <<" ", "a">>, <<"\f">>, <<"a", "\f", " ">>}
 E_Tok == {E_LD, E_RD, E_LC, E_RC, <<"-", " ">>, <<" ", "-">>, <<" ", " ", "-">>, <<" ">>, <<"\n">>, <<" ", "\n", "\t">>, <<"\f">>, <<"x">>, <<"x", "x">>, <<"a">>,
            <<E_LD[1]>>, <<E_RD[1]>>, <<E_LC[2]>>, <<"-">>, <<"-", "-">>, <<">">>}
 E_HdrTok == {E_LD \o <<"x">> \o E_RD, E_LD \o <<"-", " ", "x", " ", "-">> \o E_RD, <<" ">>, <<"\n">>, <<"a">>, <<" ", "a">>, <<"\f">>, <<"a", "\f", " ">>}
